@@ -1197,6 +1197,12 @@ class TLSRecordLayer(object):
                                     continue
                                 heartbeat_response = heartbeat_message.\
                                     create_response()
+                                if len(heartbeat_response.write()) > \
+                                        self.recordSize:
+                                    # the response would have to be
+                                    # fragmented, which the protocol does not
+                                    # allow; treat the request as too large
+                                    continue
                                 for result in self._sendMsg(
                                         heartbeat_response):
                                     yield result
@@ -1483,6 +1489,10 @@ class TLSRecordLayer(object):
                                    "we cant send it to other side")
         heartbeat_request = Heartbeat().create(
             HeartbeatMessageType.heartbeat_request, payload, padding_length)
+        # a HeartbeatMessage must fit in a single record (RFC 6520, section
+        # 4), the peer parses every heartbeat record as a whole message
+        if len(heartbeat_request.write()) > self.recordSize:
+            raise ValueError("Heartbeat message larger than the record size")
 
         for result in self._sendMsg(heartbeat_request,
                                     randomizeFirstBlock=False):
